@@ -110,7 +110,7 @@ class DistributeMapper(IdentityMapper):
                     ])
 
     def map_power(self, expr):
-        from pymbolic.primitives import Sum
+        from pymbolic.primitives import Power, Sum
 
         newbase = self.rec(expr.base)
         if isinstance(newbase, Product):
@@ -124,6 +124,10 @@ class DistributeMapper(IdentityMapper):
                 return self.rec(
                         pymbolic.flattened_product(
                             expr.exponent*(newbase,)))
+            elif isinstance(newbase, Power) and isinstance(newbase.exponent, int):
+                # (b**m)**n == b**(m*n) for integers m, n
+                return self.rec(
+                        Power(newbase.base, newbase.exponent*expr.exponent))
             else:
                 return IdentityMapper.map_power(self, expr)
         else:
